@@ -1,5 +1,6 @@
 import DmrVerif.Lemmas.CrcPoly
 import DmrVerif.Lemmas.CrcFront
+import DmrVerif.Lemmas.CrcStream
 import DmrVerif.Props.C05a
 
 /-!
@@ -135,6 +136,51 @@ theorem verify_iff (c : CrcConfig) (h : TableOk c) (bits : Bits) (e : Int) :
   · unfold verifyTable verifyBitwise
     rw [calcTable_eq_bitwise c h bits]
     rfl
+
+/-! ## the register objects fed in pieces (`init(); update(p₁); …; update(pₙ); digest()`) -/
+
+/-- **Feeding a message in any split gives the same register as feeding it at once**: `update(a ++ b)`
+leaves what `update(a); update(b)` leaves, for every register content — the bit-by-bit register (any
+positive feed width) and the table register (any `w`-bit content; an all-zero or empty `b` included) -/
+theorem register_update_append (c : CrcConfig) (r a b : Bits) :
+    (0 < c.fw → updateBitwise c r (a ++ b) = updateBitwise c (updateBitwise c r a) b)
+    ∧ (TableOk c → r.length = c.w →
+        updateTable c (lookupTable c.w c.poly) false r (a ++ b)
+          = updateTable c (lookupTable c.w c.poly) false r a
+              >>= fun r' => updateTable c (lookupTable c.w c.poly) false r' b) :=
+  ⟨fun h => updateBitwise_append c h r a b, fun h hr => updateTable_append c h r a b hr⟩
+
+/-- any number of pieces (empty and all-zero ones included): the workflow returns the one-shot check sum
+of the concatenation, on both register kinds -/
+theorem stream_eq_oneshot (c : CrcConfig) (h : TableOk c) (pieces : List Bits) :
+    streamBitwise c pieces = calcBitwise c pieces.flatten
+    ∧ streamTable c false pieces = .ok (calcBitwise c pieces.flatten) :=
+  ⟨streamBitwise_eq c h.fw_pos pieces, streamTable_eq c h pieces⟩
+
+/-- … which is the remainder of `(p₁ ‖ … ‖ pₙ)(x)·x^w` modulo `G` for the five configurations -/
+theorem stream_eq_rem (c : CrcConfig) (h : c ∈ configs) (pieces : List Bits) :
+    toPoly (streamBitwise c pieces) = (toPoly pieces.flatten * X ^ c.w) %ₘ genPoly c
+    ∧ streamTable c false pieces = .ok (streamBitwise c pieces) := by
+  have hok := ok h
+  rw [(stream_eq_oneshot c hok.table pieces).1, (stream_eq_oneshot c hok.table pieces).2]
+  exact ⟨(bitwise_eq_rem c hok.fw_pos hok.plain _).1, rfl⟩
+
+/-- **The call sequence on a register object** (either kind, in whatever state earlier use left it):
+`init(); update(p₁); …; update(pₙ); digest()` raises nothing, the `i`-th `update` returns the register
+of `p₁ ‖ … ‖ pᵢ` fed at once (`prefixRegs_getElem`) and `digest` returns the one-shot check sum of the
+whole message -/
+theorem register_workflow (c : CrcConfig) (h : c ∈ configs) (table : Bool) (r : Bits) (pieces : List Bits) :
+    regRun (regKind c table) r (workflow false pieces)
+      = (prefixRegs (polyBits c) (zeros c.w) pieces ++ [calcBitwise c pieces.flatten], none)
+    ∧ ∀ i, i < pieces.length →
+        (prefixRegs (polyBits c) (zeros c.w) pieces)[i]? = some (calcBitwise c (pieces.take (i + 1)).flatten) := by
+  have hok := ok h
+  have hinit : initReg c = zeros c.w := by unfold initReg; rw [hok.plain.init0, natToBits_zero]
+  refine ⟨?_, ?_⟩
+  · have := regRun_workflow (regKind c table) (regKind_ok c table hok.table) r pieces
+    simpa [regKind, hinit] using this
+  · intro i hi
+    rw [prefixRegs_getElem _ _ _ i hi, calcBitwise_plain c hok.fw_pos hok.plain]
 
 /-! ## the front ends -/
 
@@ -389,5 +435,15 @@ example : calcBitwise Gen.crc9 [true, false, true, true, false, false, true, fal
 /-- a burst of length 16 in a 24-bit message -/
 example : xorBits (bytesToBits [0x12, 0x34, 0x56]) (bytesToBits [0x12 ^^^ 0x01, 0x34 ^^^ 0xFF, 0x56 ^^^ 0x80])
     = zeros 7 ++ [true, true, true, true, true, true, true, true, true, true] ++ zeros 7 := by decide +kernel
+
+/-- the register fed in pieces, a later piece all-zero / a lone trailing 0 bit (9-bit feed) -/
+example : regRun (regKind Gen.crc9 true) (regNew (regKind Gen.crc9 true))
+      (workflow false [[true, false, true, true, true, false, false, false, true], [], [false]])
+    = ([[true, true, false, true, true, false, true, false, false],
+        [true, true, false, true, true, false, true, false, false],
+        [true, false, false, true, true, false, false, false, true],
+        [true, false, false, true, true, false, false, false, true]], none) := by decide +kernel
+example : streamBitwise Gen.crc16 [bytesToBits [0x12, 0x34], zeros 16, [false]]
+    = calcBitwise Gen.crc16 (bytesToBits [0x12, 0x34, 0, 0] ++ [false]) := by decide +kernel
 
 end Dmr.C05
